@@ -47,7 +47,7 @@ Regular == Reset \/ Merge
 RECURSIVE NextHdr(_)
 NextHdr(i) == IF i > Len(Trace) THEN i ELSE IF Trace[i].ev = "T" THEN i ELSE NextHdr(i + 1)
 Skip == /\ l <= Len(Trace) /\ ~ENABLED Regular
-        /\ rej' = Append(rej, [sc |-> Ev.sc, line |-> l]) /\ l' = NextHdr(l + 1)
+        /\ rej' = Append(rej, [sc |-> Ev.sc, line |-> l]) /\ l' = l + 1   \* events are independent
 Done == /\ l = Len(Trace) + 1
         /\ PrintT("VERIF-DONE " \o ToJson([lines |-> Len(Trace), rej |-> rej]))
         /\ l' = l + 1 /\ UNCHANGED rej
